@@ -1,10 +1,10 @@
 package checks
 
 import (
-	"strconv"
 	"context"
 	"encoding/json"
 	"fmt"
+	"strconv"
 	"strings"
 
 	"github.com/emersion/go-webdav/carddav"
